@@ -975,7 +975,7 @@ func (b *Buffer) writeUIntLE(call goja.FunctionCall) goja.Value {
 func (b *Buffer) getOffsetArgument(call goja.FunctionCall, argIndex int, bb []byte, numBytes int64) int64 {
 	offset := goutil.OptionalIntegerArgument(b.r, call, "offset", argIndex, 0)
 
-	if offset < 0 || offset+numBytes > int64(len(bb)) {
+	if offset < 0 || offset > int64(len(bb))-numBytes {
 		panic(errors.NewArgumentOutOfRangeError(b.r, "offset", offset))
 	}
 
@@ -997,7 +997,7 @@ func (b *Buffer) getVariableLengthArguments(call goja.FunctionCall, bb []byte, o
 	if byteLength < 1 || byteLength > 6 {
 		panic(errors.NewArgumentOutOfRangeError(b.r, "byteLength", byteLength))
 	}
-	if offset < 0 || offset+byteLength > int64(len(bb)) {
+	if offset < 0 || offset > int64(len(bb))-byteLength {
 		panic(errors.NewArgumentOutOfRangeError(b.r, "offset", offset))
 	}
 
